@@ -212,9 +212,14 @@ def _clone_kw(kw):
     return out
 
 
-def make_residual(case, trace, tag=None):
+def make_defaults(case):
+    return {k: torch.tensor(np.asarray(v, dtype=np.float32)).reshape(1, -1) for k, v in case.get("defaults", {}).items()}
+
+
+def make_residual(case, trace, tag=None, defaults=None):
     res = case["residual"]
-    defaults = {k: torch.tensor(np.asarray(v, dtype=np.float32)).reshape(1, -1) for k, v in case.get("defaults", {}).items()}
+    if defaults is None:
+        defaults = make_defaults(case)
 
     def impl(kw):
         trace.add("residual", tag=tag, kw=_clone_kw(kw))
@@ -255,7 +260,8 @@ def make_parameter(case):
     return tp.models.Parameter(init, D.space_of(ps))
 
 
-def build_condition(case, world=None, trace=None, tag=None, shared_data=None, model=None, fset=None):
+def build_condition(case, world=None, trace=None, tag=None, shared_data=None, model=None, fset=None, defaults=None,
+                    param=None):
     """Constructs the condition of `case` with all probes in place.  Raises whatever the library raises."""
     import torchphysics as tp
     world = world or World()
@@ -268,7 +274,7 @@ def build_condition(case, world=None, trace=None, tag=None, shared_data=None, mo
         b.model, b.twin = model
     else:
         b.model, b.twin = D.build_model(case["model"], vars_)
-    b.residual, b.defaults = make_residual(case, trace, tag)
+    b.residual, b.defaults = make_residual(case, trace, tag, defaults)
     b.data_dict = make_data_functions(case, trace, tag, shared_data)
     # the dict handed to the constructor: the shared one (C14) or a private one holding exactly this case's functions
     names = [d["name"] for d in case.get("data", [])]
@@ -276,7 +282,7 @@ def build_condition(case, world=None, trace=None, tag=None, shared_data=None, mo
         b.user_dict = shared_data
     else:
         b.user_dict = {n: b.data_dict[n] for n in names}
-    b.param = make_parameter(case)
+    b.param = param if param is not None else make_parameter(case)
     b.samplers = {}
     kw = {}
     if names or case.get("pass_empty_dict"):
@@ -492,7 +498,7 @@ def _close(recv, exp, tol=ARG_TOL):
     return bool(np.all(np.abs(recv - exp) <= tol * (1.0 + np.max(np.abs(exp)))))
 
 
-def judge_call(b, phase, loss):
+def judge_call(b, phase, loss, only=None, judge_loss=True):
     """-> (violations, judged_rows, counters).  Judges the arguments the residual received in this phase and the
     returned loss against the reference recomputed from the recorded points."""
     case, tr, tag = b.case, b.trace, b.tag
@@ -538,6 +544,8 @@ def judge_call(b, phase, loss):
     dvals = {k: _np(v) for k, v in b.defaults.items()}
     fsvals = {}
     for k_, base, side in args:
+        if only is not None and k_ not in only:
+            continue
         an = D.argname(base, side)
         r = recv[an]
         rt = r["t"]
@@ -661,7 +669,7 @@ def judge_call(b, phase, loss):
                       % (phase, [n for n, _a in stale], ", ".join(ages)), arg="data", **mech0))
 
     # --- the loss ---------------------------------------------------------------------------------------
-    if layout_bad:
+    if layout_bad or not judge_loss:
         return V, judged, cnt       # the broadcast of mis-laid-out arguments has no documented meaning
     R = D.Resolver({s: sets[s][0] for s in sets}, b.twin, data_used, pvals, dvals, fsvals)
     try:
